@@ -59,7 +59,7 @@ func (d *DebugDialer) Dial(ctx context.Context, urlstr string) (conn net.Conn, b
 			}
 		}
 		if d.OnRequest != nil {
-			w = io.MultiWriter(conn, &reqBuf)
+			w = requestRecorder{conn, &reqBuf}
 		}
 		return rwConn{conn, r, w}
 	}
@@ -108,6 +108,21 @@ func (d *DebugDialer) Dial(ctx context.Context, urlstr string) (conn net.Conn, b
 	}
 
 	return conn, br, hs, err
+}
+
+// requestRecorder writes to dst and records the bytes which dst has really
+// accepted, including those of a partial write that ended with an error.
+type requestRecorder struct {
+	dst io.Writer
+	rec *bytes.Buffer
+}
+
+func (r requestRecorder) Write(p []byte) (n int, err error) {
+	n, err = r.dst.Write(p)
+	if n > 0 && n <= len(p) {
+		r.rec.Write(p[:n])
+	}
+	return n, err
 }
 
 type rwConn struct {
